@@ -10,6 +10,10 @@ REGISTRY = {
     "C01": ("props_acnsim", "check_C01"), "C02": ("props_acnsim", "check_C02"), "C04": ("props_acnsim", "check_C04"),
     "C05": ("props_acnsim", "check_C05"), "C09": ("props_acnsim", "check_C09"), "C10": ("props_acnsim", "check_C10"),
     "C13": ("props_evse", "check_C13"),
+    "C06": ("props_feasibility", "check_C06"),
+    "C20": ("props_dataclient", "check_C20"),
+    "C19": ("props_stochasticnet", "check_C19"),
+    "C12": ("props_currents", "check_C12"),
 }
 
 
